@@ -562,6 +562,8 @@ func (s *storage) runSizeLimiter() {
 		case opAccessTime:
 			if io.accessedItem != nil {
 				s.withAccessTime[io.name] = *io.accessedItem
+				// an entry found at startup has been used now: it is no longer one without access time
+				delete(s.withoutAccessTime, io.name)
 			}
 			if io.storableAccessedItem != nil {
 				s.storableAccessedItems[io.name] = *io.storableAccessedItem
